@@ -537,10 +537,12 @@ def triples(tier):
     return [[g, g, g] for g in gens + [TW]]
 
 
-def pairs(tier, full):
+def pairs(tier, full, short=False):
     base = [("white",), ("corr",), ("aaft",), ("rspec", 2), TW]
     if full:
         base.insert(3, ("ramp", 2))
+    if short:
+        base.remove(TW)
     return [[a, b] for a in base for b in base if a != b]
 
 
@@ -566,7 +568,8 @@ def run(ctx):
         for h in triples(ctx.tier) + pairs(ctx.tier, thorough):
             cases.append(mk(data, h, 1))
     for data in two:
-        hs = triples(ctx.tier) + (pairs(ctx.tier, False) if thorough else [])
+        hs = triples(ctx.tier) + (pairs(ctx.tier, False, True) if thorough
+                                  else [])
         for h in hs:
             cases.append(mk(data, h, 1))
     for data in LONG:
@@ -621,7 +624,8 @@ def run(ctx):
         "arrays of length 8/9/16; histories = g,g,g for each generator "
         "(outputs of call 1,2,3 all judged, so the one- and two-call "
         "histories are covered as prefixes) and ordered pairs of different "
-        "generators; random source: shuffle -> every permutation (n_time<=5; "
+        "generators (N=1 and fixed arrays; N=2: thorough only, without the "
+        "twin generator); random source: shuffle -> every permutation (n_time<=5; "
         "6 fixed ones beyond), uniform phases -> every row vector over "
         "{0,pi/2,pi,3pi/2,1.234} (len<=3; per element beyond), randn -> 3 "
         "reference draws, twin walk -> {0,1/4,1/2,3/4,0.999}; option 0 = "
